@@ -8,6 +8,7 @@ import (
 	"sort"
 	"strconv"
 	"strings"
+	"testing"
 
 	configapi "github.com/onosproject/onos-api/go/onos/config/v2"
 	topoapi "github.com/onosproject/onos-api/go/onos/topo"
@@ -403,6 +404,58 @@ func (m *c04) Name() string { return "C04" }
 
 func (m *c04) OnConnFault(target, kind string) { m.s.K.Probe("c04-" + kind) }
 
+// FillExtra lists, per target, the ordinals of the southbound Sets issued by the configuration controller (the pushes of
+// re-synchronisations).
+func (m *c04) FillExtra(x map[string]string) { fillResyncSets(m.s, x) }
+
+func fillResyncSets(s *Sys, x map[string]string) {
+	for _, t := range s.Plan.Knobs.Targets {
+		d := s.Devs[t]
+		var ns []string
+		d.mu.Lock()
+		for _, q := range d.Log {
+			if strings.HasPrefix(q.Task, "rec/configuration/") {
+				ns = append(ns, fmt.Sprint(q.N))
+			}
+		}
+		d.mu.Unlock()
+		x["resync-sets/"+t] = strings.Join(ns, ",")
+	}
+}
+
+// runResync resolves Knobs.Resync: first pass without it, then the fault is placed at one of the re-synchronisation pushes
+// the first pass showed (the schedule up to there is the same: the run is a function of the plan).
+func runResync(t *testing.T, plan *Plan, prof *Profile) *Result {
+	if plan.Knobs.Resync == nil {
+		return runSys(t, plan, prof)
+	}
+	rs := plan.Knobs.Resync
+	pass1 := plan.Clone()
+	pass1.Knobs.Resync = nil
+	r1 := runSys(t, pass1, prof)
+	if r1.Harness != "" || len(r1.Viol) > 0 {
+		r1.Plan = pass1
+		return r1
+	}
+	var ns []int
+	for _, f := range strings.Split(r1.Extra["resync-sets/"+rs.Target], ",") {
+		var n int
+		if _, err := fmt.Sscan(f, &n); err == nil && n > 0 {
+			ns = append(ns, n)
+		}
+	}
+	final := plan.Clone()
+	final.Knobs.Resync = nil
+	if len(ns) > 0 {
+		n := ns[len(ns)-1-rs.Pick%len(ns)]
+		final.Faults = append(final.Faults, Fault{Kind: rs.Kind, Target: rs.Target, On: rs.On, N: n})
+		final.Profile += "+at-resync-push"
+	}
+	res := runSys(t, final, prof)
+	res.Plan = final
+	return res
+}
+
 func (m *c04) AtQuiescence() {
 	s := m.s
 	mod := s.PredictedFold()
@@ -553,6 +606,9 @@ func devScenario(g *Gen, p *Plan, tier string, o ScenOpts) {
 	if g.chance(1, 2) {
 		p.Knobs.MapSeed = g.R.Uint64() | 1
 	}
+	// the connection objects of a target share one self-reconnecting channel (as in the real connection manager) in two
+	// runs out of three; in the others a lost connection's objects stay dead
+	p.Knobs.SharedChannel = g.chance(2, 3)
 }
 
 func init() {
@@ -616,11 +672,27 @@ func init() {
 				for i := 0; i <= g.pick(2); i++ {
 					t := p.Knobs.Targets[g.pick(len(p.Knobs.Targets))]
 					k := []string{"dev-restart", "dev-restart", "conn-replace", "conn-down"}[g.pick(4)]
-					p.Faults = append(p.Faults, Fault{Kind: k, Target: t, On: "during-devset", N: 1 + g.pick(8)})
+					// ... or right after the device answered one: the issuing reconcile has the answer and has not yet
+					// recorded it
+					on := []string{"during-devset", "after-devset"}[g.pick(2)]
+					p.Faults = append(p.Faults, Fault{Kind: k, Target: t, On: on, N: 1 + g.pick(8)})
+				}
+				if g.chance(1, 2) {
+					// one more fault exactly at a push of a re-synchronisation (resolved by the runner)
+					t := p.Knobs.Targets[g.pick(len(p.Knobs.Targets))]
+					p.Knobs.Resync = &ResyncSpec{Target: t, Pick: []int{0, 0, 0, 1, 2}[g.pick(5)], Kind: []string{"dev-restart", "dev-restart", "conn-replace"}[g.pick(3)],
+						On: []string{"after-devset", "after-devset", "during-devset"}[g.pick(3)]}
+				}
+				if g.chance(1, 2) {
+					// every call of one controller's reconciles is served last: everything else (a new connection, a new
+					// master) gets in between a push and the record of its outcome
+					p.Sched.Policy = []string{"starve", "window"}[g.pick(2)]
+					p.Sched.Starve = []string{"task:rec/configuration", "task:rec/configuration", "task:rec/proposal", "op/configurations/"}[g.pick(4)]
 				}
 			}
 			return p
 		},
+		Run: func(t *testing.T, plan *Plan) *Result { return runResync(t, plan, Profiles["C04"]) },
 		Arm: func(s *Sys) { s.Mon = append(s.Mon, &c04{s: s}) },
 		NonTrivial: func(s *Sys) bool {
 			k := s.K
